@@ -5,6 +5,7 @@
 package main
 
 import (
+	"runtime/debug"
 	"encoding/json"
 	"flag"
 	"fmt"
@@ -130,6 +131,11 @@ func main() {
 	n := flag.Int("n", 1000, "")
 	first := flag.Bool("first", false, "also yield at the first iteration (the long non-yielding stretch then comes AFTER a yield)")
 	flag.Parse()
+	// second oracle, independent of where the depth probes sit: the whole configuration runs under a small stack
+	// limit (1 MiB; the default is 1 GiB). A bounded call depth of a few hundred frames needs a few dozen KiB;
+	// stack that grows with n anywhere (also inside the runtime's own iterators, where no probe can be placed)
+	// ends in the fatal "stack overflow" the property is about.
+	debug.SetMaxStack(1 << 20)
 	res := map[string]any{"config": *config, "n": *n}
 	var g it
 	switch *config {
@@ -149,6 +155,14 @@ func main() {
 		g = loops.RangeInt(*n, *first)
 	case "RangeSlice":
 		g = loops.RangeSlice(*n, *first)
+	case "MapDeleteAhead":
+		g = loops.MapDeleteAhead(*n, *first)
+	case "MapClearAhead":
+		g = loops.MapClearAhead(*n, *first)
+	case "ChanManySkipped":
+		g = loops.ChanManySkipped(*n, *first)
+	case "StringLong":
+		g = loops.StringLong(*n, *first)
 	case "Switch":
 		g = loops.Switch(*n, *first)
 	case "Nested":
